@@ -1,0 +1,61 @@
+//go:build verif
+
+package cert
+
+// Contracts for the verification framework in /verif (comment-only file,
+// compiled only with -tags verif; see /verif/DESIGN.md).
+
+//@ import keyid "github.com/theparanoids/ysshra/keyid"
+
+//@ # --- C19: the type is a fixed total function of the decoded KeyID and the critical option
+//@ ghost func sudoOpt(cert *ssh.Certificate) bool =
+//@   cert.CriticalOptions != nil && cert.CriticalOptions["touchless-sudo-hosts"] != ""
+//@ ghost func typeOf(cert *ssh.Certificate) int =
+//@   !keyid.decOK(cert.KeyId) ? 0 :
+//@   keyid.decNonce(cert.KeyId) ? 5 :
+//@   keyid.decFF(cert.KeyId) ? (keyid.decHW(cert.KeyId) ? 4 : (sudoOpt(cert) ? 8 : 7)) :
+//@   (keyid.decTouch(cert.KeyId) == 2 || keyid.decTouch(cert.KeyId) == 3) ? 1 :
+//@   keyid.decTouch(cert.KeyId) == 1 ? (sudoOpt(cert) ? 3 : 2) : 0
+//@ ghost func typeName(t int) string =
+//@   t == 1 ? "TouchSudo" : t == 2 ? "Touchless" : t == 3 ? "TouchlessSudo" : t == 4 ? "FireFighterSudo" :
+//@   t == 5 ? "Nonce" : t == 7 ? "TouchlessInAgent" : t == 8 ? "TouchlessSudoInAgent" : ""
+
+//@ func GetType(cert)
+//@   ensures cert == nil ==> result == 0
+//@   ensures cert != nil ==> result == typeOf(cert)
+
+//@ func Label(cert)
+//@   ensures (cert == nil || typeOf(cert) == 0) ==> err != nil && result == ""
+//@   ensures cert != nil && typeOf(cert) != 0 ==> err == nil &&
+//@     result == typeName(typeOf(cert)) + "SSH-" + keyid.decTransID(cert.KeyId)
+
+//@ func (Type).String(c)
+//@   ensures result == typeName(c)
+
+//@ func GetPrincipals(principals, certType)
+//@   ensures certType == 0 ==> result == nil
+//@   ensures certType == 1 ==> len(result) == len(principals) &&
+//@     forall(i, 0 <= i && i < len(principals), result[i] == principals[i] + ":touch")
+//@   ensures (certType == 2 || certType == 3) ==> len(result) == len(principals) &&
+//@     forall(i, 0 <= i && i < len(principals), result[i] == principals[i] + ":notouch")
+//@   ensures !(certType in {0, 1, 2, 3}) ==> result == principals
+
+//@ func getTouchPrincipals(principals)
+//@   ensures len(result) == len(principals)
+//@   ensures forall(i, 0 <= i && i < len(principals), result[i] == principals[i] + ":touch")
+//@   ensures unchanged(elems(principals))
+//@   loop 1:
+//@     invariant len(labeledPrincipals) == rangeindex + 1
+//@     invariant forall(i, 0 <= i && i <= rangeindex, labeledPrincipals[i] == principals[i] + ":touch")
+//@     invariant labeledPrincipals == nil || fresh(arr(labeledPrincipals))
+//@     invariant unchanged(elems(principals))
+
+//@ func getTouchlessPrincipals(principals)
+//@   ensures len(result) == len(principals)
+//@   ensures forall(i, 0 <= i && i < len(principals), result[i] == principals[i] + ":notouch")
+//@   ensures unchanged(elems(principals))
+//@   loop 1:
+//@     invariant len(labeledPrincipals) == rangeindex + 1
+//@     invariant forall(i, 0 <= i && i <= rangeindex, labeledPrincipals[i] == principals[i] + ":notouch")
+//@     invariant labeledPrincipals == nil || fresh(arr(labeledPrincipals))
+//@     invariant unchanged(elems(principals))
